@@ -531,8 +531,62 @@ def _bounded_decode(tier, seed):
     return {"tool": "native: real decode/normalize on a grammar of Solidity storage-location expressions (scalars, mappings, arrays, nested mappings, struct fields, short keys, compile-time folded hashes) in several spellings, both layouts", "bound": "12 logical locations x up to 3 spellings x 2 layouts; all pairs compared by z3", "cases": cases, "failures": failures[:6]}
 
 
+def empty_hash_cases():
+    """the literal keccak256("") as a storage slot, before and after the empty hash has been computed on the path"""
+    out = []
+    K = hs.EMPTY_KECCAK
+
+    for layout in ("solidity", "generic"):
+
+        def harness(interp, layout=layout):
+            ctx = interp.ctx
+            sevm = mk_sevm(storage_layout=layout)
+            ex = mk_ex(sevm)
+            model = sevm.storage_model
+            lit = z3.BitVecVal(K, 256)
+            dec = model.__dict__["decode"].__func__
+            before = interp.call(dec, [model, ex, lit], {})
+            ex.sha3_data(b"")  # registers the constant f_sha3_empty for this value
+            try:
+                after = interp.call(dec, [model, ex, lit], {})
+            except BaseException as e:  # noqa
+                from pyvc.interp import _ENGINE, PathEnd
+
+                if isinstance(e, (PathEnd,) + tuple(_ENGINE)):
+                    raise
+                ctx.oblige(f"no-exception[{type(e).__name__}]: a literal slot equal to a registered hash is still decodable", z3.BoolVal(False), info={"msg": str(e)[:200]})
+                return
+            same = (len(before) == len(after) and all(z3.eq(a, b) for a, b in zip(before, after))) if layout == "solidity" else z3.eq(before, after)
+            ctx.oblige("the slot keccak256('') denotes the same location before and after the empty hash was computed", z3.BoolVal(bool(same)), info={"before": str(before), "after": str(after)})
+            v = z3.BitVec("v", 256)
+            sevm.sstore(ex, THIS, hb.HalmosBitVec(lit), hb.HalmosBitVec(v))
+            got = val(sevm.sload(ex, THIS, hb.HalmosBitVec(K)))
+            ctx.oblige("a load from the literal slot returns the value stored there", After(ex, got == v).f)
+
+        out.append(Case(f"{PROP}/sevm.Storage.decode#registered-empty-hash", layout, harness, replay=replay_empty_hash, sources=("halmos.sevm:SolidityStorage.decode", "halmos.sevm:GenericStorage.decode")))
+    return out
+
+
+def replay_empty_hash(r):
+    K = hs.EMPTY_KECCAK
+    for layout in ("solidity", "generic"):
+        sevm = mk_sevm(storage_layout=layout)
+        ex = mk_ex(sevm)
+        ex.sha3_data(b"")
+        try:
+            sevm.sstore(ex, THIS, hb.HalmosBitVec(K), hb.HalmosBitVec(7))
+            got = val(sevm.sload(ex, THIS, hb.HalmosBitVec(K)))
+        except Exception as e:  # noqa
+            return {"reproduced": True, "detail": f"{layout} layout: after keccak256('') was computed on the path, SSTORE at the literal slot 0xc5d2..a470 raises {type(e).__name__}: {e}", "inputs": "sha3 of empty data; sstore(0xc5d2460186f7233c927e7db2dcc703c0e500b653ca82273b7bfad8045d85a470, 7)"}
+        s_ = z3.Solver()
+        s_.add(pc_of(ex), got != 7)
+        if s_.check() == z3.sat:
+            return {"reproduced": True, "detail": f"{layout} layout: the load from the literal slot keccak256('') returns {got}, not the stored 7"}
+    return {"reproduced": False, "detail": "store/load at the literal slot keccak256('') works in both layouts"}
+
+
 def build_cases(tier="quick"):
-    return solidity_cases() + generic_cases() + sevm_cases() + offsetmap_cases()
+    return solidity_cases() + generic_cases() + sevm_cases() + offsetmap_cases() + empty_hash_cases()
 
 
 def grounds():
